@@ -683,14 +683,16 @@ func runC07(c *Check) {
 		if emptySucc == nil {
 			c.Unresolved("R7.5", "empty-block branch in put not found")
 		} else {
+			isCreate := func(f *ssa.Function) bool { return strings.HasPrefix(f.Name(), "createODS") }
 			writes := blocksWhere(put, func(ins ssa.Instruction) bool {
 				g, ok := ins.(*ssa.Call)
-				return ok && g.Call.StaticCallee() != nil && strings.HasPrefix(g.Call.StaticCallee().Name(), "createODS")
+				return ok && g.Call.StaticCallee() != nil && p.reachesStatic(g.Call.StaticCallee(), isCreate, 2)
 			})
 			res := gateWalkOpts(p, put, writes, nil, emptySucc, nil)
+			// the link may be made by a helper extracted from put (putEmpty-style)
 			links := blocksWhere(put, func(ins ssa.Instruction) bool {
 				g, ok := ins.(*ssa.Call)
-				return ok && g.Call.StaticCallee() == link
+				return ok && g.Call.StaticCallee() != nil && p.reachesStatic(g.Call.StaticCallee(), func(f *ssa.Function) bool { return f == link }, 2)
 			})
 			c.Ob("R7.5", "empty block only linked", !res.Reached && len(links) >= 1, p.Pos(put.Pos()), "on the empty-data-hash side put reaches linkHeight and never a file creation", res.Witness...)
 		}
@@ -710,6 +712,8 @@ func c07ErrorsAndSizes(c *Check, errRule, sizeRule string) {
 	c.Rule(sizeRule, "existing files are accepted only if their size equals the size computed from the square")
 	n := checkNoDroppedErrors(c, errRule, storeDroppedErrExempt, "store/file", "store")
 	c.Floor(errRule, "calls with a discarded error in store and store/file (all reasoned)", n, 1)
+	nrx := checkReceivedErrorsGateSuccess(c, errRule, "store/file", "store")
+	c.Floor(errRule, "errors received from writer goroutines", nrx, 1)
 	nv := 0
 	for _, f := range p.FuncsOfPkg("store/file") {
 		if f.Parent() != nil || !strings.Contains(strings.ToLower(f.Name()), "validate") || !strings.HasSuffix(f.Name(), "Size") {
